@@ -102,12 +102,21 @@ pub(crate) mod verif_probe {
 
     fn connect_client(db: &str, usern: &str, client_server_map: ClientServerMap, shutdown: &tokio::sync::broadcast::Sender<()>)
         -> (DuplexStream, JoinHandle<Result<(), Error>>) {
+        connect_client_with(db, usern, client_server_map, shutdown, &json!({}))
+    }
+
+    fn connect_client_with(db: &str, usern: &str, client_server_map: ClientServerMap, shutdown: &tokio::sync::broadcast::Sender<()>, params: &Value)
+        -> (DuplexStream, JoinHandle<Result<(), Error>>) {
         let (client_end, pgcat_end) = duplex(1 << 16);
         let (read, write) = split(pgcat_end);
         let shutdown_rx = shutdown.subscribe();
         let mut startup = BytesMut::new();
         startup.put_slice(b"user\0"); startup.put_slice(usern.as_bytes());
-        startup.put_slice(b"\0database\0"); startup.put_slice(db.as_bytes()); startup.put_slice(b"\0\0");
+        startup.put_slice(b"\0database\0"); startup.put_slice(db.as_bytes()); startup.put_slice(b"\0");
+        if let Some(m) = params.as_object() {
+            for (k, v) in m { startup.put_slice(k.as_bytes()); startup.put_u8(0); startup.put_slice(v.as_str().unwrap_or("").as_bytes()); startup.put_u8(0); }
+        }
+        startup.put_u8(0);
         let task = tokio::spawn(async move {
             let mut client = Client::startup(read, write, "127.0.0.1:55555".parse().unwrap(), startup, client_server_map, shutdown_rx, false).await?;
             client.handle().await
@@ -147,7 +156,12 @@ pub(crate) mod verif_probe {
     // Reference PostgreSQL backend (the same protocol reference as /verif/checks/handle_env.py::MockPg), with a log of
     // every request, the replies delivered for it and the ground truth *before* it was processed.
     #[derive(Clone, Default)]
-    struct RefTruth { status: u8, copy_in: bool, dirty_set: bool, role_set: bool, sql_prepared: bool, named: usize, unsynced: bool }
+    struct RefTruth { status: u8, copy_in: bool, dirty_set: bool, role_set: bool, sql_prepared: bool, named: usize, unsynced: bool,
+                      params: std::collections::BTreeMap<String, String> }
+    fn param_defaults() -> std::collections::BTreeMap<String, String> {
+        [("client_encoding", "UTF8"), ("DateStyle", "ISO, MDY"), ("TimeZone", "Etc/UTC"), ("standard_conforming_strings", "on"), ("application_name", "pgcat")]
+            .iter().map(|(k, v)| (k.to_string(), v.to_string())).collect()
+    }
     struct RefReq { g: u64, conn: usize, phase: u8, bytes: Vec<u8>, delivered: Vec<Vec<u8>>, before: RefTruth, status_after: u8 }
     #[derive(Default)]
     struct RefLog { reqs: Vec<RefReq>, clock: u64, phase: u8, conns: usize, statuses: std::collections::VecDeque<u8> }
@@ -171,7 +185,8 @@ pub(crate) mod verif_probe {
                 out.put_u8(b'K'); out.put_i32(12); out.put_i32(conn as i32); out.put_i32(1234);
                 out.put(ready_for_query(false));
                 if sock.write_all(&out).await.is_err() { return; }
-                let mut t = RefTruth { status: b'I', ..RefTruth::default() };
+                let mut t = RefTruth { status: b'I', params: param_defaults(), ..RefTruth::default() };
+                let set_rx = regex::Regex::new(r"(?i)^SET\s+(?:SESSION\s+)?([A-Za-z_]+)\s*(?:TO|=)\s*(?:'((?:[^']|'')*)'|([^\s;']+))$").unwrap();
                 let mut pending: Vec<Vec<u8>> = vec![];
                 let mut ignore_till_sync = false;
                 let mut prepared: HashMap<Vec<u8>, Vec<u8>> = HashMap::new();
@@ -227,13 +242,37 @@ pub(crate) mod verif_probe {
                                         deliver.push(pmsg(b'C', if failed { b"ROLLBACK\0" } else { b"COMMIT\0" })); }
                                     else if u == "ROLLBACK" || u == "ABORT" { t.status = b'I'; deliver.push(pmsg(b'C', b"ROLLBACK\0")); }
                                     else if u.starts_with("SET LOCAL") { deliver.push(pmsg(b'C', b"SET\0")); }
-                                    else if u.starts_with("SET ROLE") || u.starts_with("SET SESSION AUTHORIZATION") { t.role_set = true; deliver.push(pmsg(b'C', b"SET\0")); }
-                                    else if u.starts_with("SET ") { t.dirty_set = true; deliver.push(pmsg(b'C', b"SET\0")); }
+                                    else if u.starts_with("SET ROLE") || u.starts_with("SET SESSION AUTHORIZATION") { if t.status == b'I' { t.role_set = true; } deliver.push(pmsg(b'C', b"SET\0")); }
+                                    else if u.starts_with("SET ") {
+                                        let mut tracked = false;
+                                        if let Some(c) = set_rx.captures(s.trim()) {
+                                            let canon = param_defaults().keys().find(|k| k.to_ascii_lowercase() == c[1].to_ascii_lowercase()).cloned();
+                                            if let Some(key) = canon {
+                                                tracked = true;
+                                                let val = match c.get(2) { Some(q) => q.as_str().replace("''", "'"), None => c[3].to_string() };
+                                                t.params.insert(key.clone(), val.clone());
+                                                let mut b = key.as_bytes().to_vec(); b.push(0); b.extend_from_slice(val.as_bytes()); b.push(0);
+                                                deliver.push(pmsg(b'S', &b));
+                                            }
+                                        }
+                                        if t.status == b'I' && !tracked { t.dirty_set = true; }
+                                        deliver.push(pmsg(b'C', b"SET\0"));
+                                    }
                                     else if u == "RESET ROLE" { t.role_set = false; deliver.push(pmsg(b'C', b"RESET\0")); }
-                                    else if u == "RESET ALL" { t.dirty_set = false; deliver.push(pmsg(b'C', b"RESET\0")); }
+                                    else if u == "RESET ALL" {
+                                        t.dirty_set = false;
+                                        for (key, dv) in param_defaults() {
+                                            if t.params.get(&key) != Some(&dv) {
+                                                t.params.insert(key.clone(), dv.clone());
+                                                let mut b = key.as_bytes().to_vec(); b.push(0); b.extend_from_slice(dv.as_bytes()); b.push(0);
+                                                deliver.push(pmsg(b'S', &b));
+                                            }
+                                        }
+                                        deliver.push(pmsg(b'C', b"RESET\0"));
+                                    }
                                     else if u == "DISCARD ALL" { t.dirty_set = false; t.role_set = false; t.sql_prepared = false; t.named = 0; prepared.clear(); deliver.push(pmsg(b'C', b"DISCARD ALL\0")); }
                                     else if u == "DEALLOCATE ALL" { t.sql_prepared = false; t.named = 0; prepared.clear(); deliver.push(pmsg(b'C', b"DEALLOCATE ALL\0")); }
-                                    else if u.starts_with("PREPARE ") { t.sql_prepared = true; deliver.push(pmsg(b'C', b"PREPARE\0")); }
+                                    else if u.starts_with("PREPARE ") { if t.status == b'I' { t.sql_prepared = true; } deliver.push(pmsg(b'C', b"PREPARE\0")); }
                                     else if u.starts_with("COPY ") && u.contains("FROM STDIN") { t.copy_in = true; deliver.push(pmsg(b'G', b"\0\0\0")); copy_started = true; break; }
                                     else if u.starts_with("COPY ") && u.contains("TO STDOUT") {
                                         deliver.push(pmsg(b'H', b"\0\0\0")); deliver.push(pmsg(b'd', format!("{}\n", tag).as_bytes()));
@@ -402,7 +441,7 @@ pub(crate) mod verif_probe {
             POOLS.store(Arc::new(pools));
         }
         let (shutdown_tx, _keep) = tokio::sync::broadcast::channel::<()>(1);
-        let (mut a, a_task) = connect_client(&db, &usern, csmap.clone(), &shutdown_tx);
+        let (mut a, a_task) = connect_client_with(&db, &usern, csmap.clone(), &shutdown_tx, &v["startup_params"]);
         if read_until_ready(&mut a).await.is_none() { return json!({"error": "client A could not log in"}); }
         // forget what the backends saw during validation / startup
         { let mut l = log.lock(); l.reqs.clear(); l.phase = 1;
@@ -451,7 +490,7 @@ pub(crate) mod verif_probe {
         let reqs: Vec<Value> = l.reqs.iter().map(|r| json!({"g": r.g, "conn": r.conn, "phase": r.phase, "hex": hexs(&r.bytes),
             "delivered": r.delivered.iter().map(|d| hexs(d)).collect::<Vec<_>>(), "status_after": r.status_after,
             "before": {"status": r.before.status, "copy_in": r.before.copy_in, "dirty_set": r.before.dirty_set, "role_set": r.before.role_set,
-                       "sql_prepared": r.before.sql_prepared, "named": r.before.named, "unsynced": r.before.unsynced}})).collect();
+                       "sql_prepared": r.before.sql_prepared, "named": r.before.named, "unsynced": r.before.unsynced, "params": r.before.params}})).collect();
         json!({"csmap_after_a": csmap_after_a, "a_result": a_task_result, "a_out": hexs(&a_out), "b_out": hexs(&b_out), "b_state": b_state, "reqs": reqs, "paused_at_end": paused_at_end})
     }
 
